@@ -684,8 +684,8 @@ func buildCases(baseName string, mk func() *GProg, r *vl.Rng, exhaustive bool, p
 		for _, rule := range rules {
 			ids := byRule[rule]
 			got := 0
-			if rule == "typedef_cycle_const_ident" && !r.Chance(25) {
-				continue
+			if rule == "typedef_cycle_const_ident" && (perRule < 2 || !r.Chance(25)) {
+				continue // quick tier: only on the fixed program (each run has to grow a 1 GB stack)
 			}
 			for attempt := 0; attempt < 12 && got < perRule; attempt++ {
 				e := cat[ids[r.Intn(len(ids))]]
